@@ -96,3 +96,14 @@ Definition entry_abs_run (x : sx) : sx :=
   let fs := map as_frame fsx in
   if existsb (fun f => old_has_bad (arg 0 f)) fsx || negb (valid_framesb 0 fs) then L []
   else L [L (map (fun s => L (map of_feat (abs s))) (run_trace (fresh H A) fs))].
+
+(* entry_run_abs [H; A; frames]: per frame the batched state of the model AND its per-feature
+   abstraction.  By C09_fresh_refines_trace the second components are exactly the output of
+   entry_spec_run, so one evaluation serves both the correspondence and the checker. *)
+Definition entry_run_abs (x : sx) : sx :=
+  let H := as_mat (arg 0 x) in
+  let A := as_mat (arg 1 x) in
+  let fsx := as_list (arg 2 x) in
+  let fs := map as_frame fsx in
+  if existsb (fun f => old_has_bad (arg 0 f)) fsx || negb (valid_framesb 0 fs) then L []
+  else L [L (map (fun s => L [of_state s; L (map of_feat (abs s))]) (run_trace (fresh H A) fs))].
